@@ -182,6 +182,9 @@ def register(reg, prop):
         # fewer than 2 atoms / a non-symmetric matrix / a non-converging optimiser: no backend object
         raises={"AssertionError": None, "NotImplementedError": "mps_config.optimize_qubit_ordering"},
     )
+    drive_clause = ("forall(lambda t: forall(lambda k: "
+                    + " and ".join(f"self.{d}[t, k] == pulser_data.{d}[t, self.qubit_permutation[k]]" for d in DRIVES)
+                    + ", 0, N), 0, NT)")
     reg.add_contract(Contract(
         f"{IMPL}:MPSBackendImpl.__init__", property=prop, label="MPSBackendImpl.__init__[order]",
         ensures=[
@@ -200,14 +203,13 @@ def register(reg, prop):
         f"{IMPL}:MPSBackendImpl.__init__", property=prop, label="MPSBackendImpl.__init__[drives]",
         ensures=[
             "self.omega.shape == (NT, N) and self.delta.shape == (NT, N) and self.phi.shape == (NT, N)",
-            # the drive of site k is the drive of register atom perm[k]
-        ] + [f"forall(lambda t: forall(lambda k: self.{d}[t, k] == pulser_data.{d}[t, self.qubit_permutation[k]],"
-             " 0, N), 0, NT)" for d in DRIVES],
+            # the drive of site k is the drive of register atom perm[k] (one clause for the three
+            # drives: one defect gives one failed obligation)
+            drive_clause],
         **init_common), callsite=False)
     # the same clause on a fixed size: a counter-model is then a concrete assignment (with
     # symbolic N the solver cannot turn the candidate into a model of the bijection axioms)
     reg.add_contract(Contract(
         f"{IMPL}:MPSBackendImpl.__init__", property=prop, label="MPSBackendImpl.__init__[drives,N=4]",
-        ensures=[f"forall(lambda t: forall(lambda k: self.{d}[t, k] == pulser_data.{d}[t, self.qubit_permutation[k]],"
-                 " 0, N), 0, NT)" for d in DRIVES],
+        ensures=[drive_clause],
         **dict(init_common, setup=lambda I, fr: setup_init(I, fr, 4, 2))), callsite=False)
